@@ -111,7 +111,7 @@ func (t SSE) Do(w http.ResponseWriter, r *http.Request, exec graphql.GraphExecut
 
 	if opErr != nil {
 		resp := exec.DispatchError(ctx, opErr)
-		writeJsonWithSSE(w, resp)
+		c.writeEvent(w, resp)
 	} else {
 		responses, ctx := exec.DispatchOperation(ctx, rc)
 		for {
@@ -119,14 +119,24 @@ func (t SSE) Do(w http.ResponseWriter, r *http.Request, exec graphql.GraphExecut
 			if response == nil {
 				break
 			}
-			writeJsonWithSSE(w, response)
-			c.flush()
+			c.writeEvent(w, response)
 
 			c.resetTicker(t.KeepAlivePingInterval)
 		}
 	}
 
+	c.mu.Lock()
 	fmt.Fprint(w, "event: complete\n\n")
+	c.mu.Unlock()
+}
+
+// writeEvent writes one next event and flushes it while holding the lock, so that the
+// keep-alive goroutine cannot write a ping into the middle of it.
+func (c *sseConnection) writeEvent(w io.Writer, response *graphql.Response) {
+	c.mu.Lock()
+	defer c.mu.Unlock()
+	writeJsonWithSSE(w, response)
+	c.f.Flush()
 }
 
 func (c *sseConnection) resetTicker(interval time.Duration) {
@@ -144,8 +154,10 @@ func (c *sseConnection) keepAlive(w io.Writer) {
 			c.keepAliveTicker.Stop()
 			return
 		case <-c.keepAliveTicker.C:
+			c.mu.Lock()
 			fmt.Fprintf(w, ": ping\n\n")
-			c.flush()
+			c.f.Flush()
+			c.mu.Unlock()
 		}
 	}
 }
